@@ -100,7 +100,10 @@ def check_property(pid: str, tier: str = 'quick', seed: int = 0, repo: Optional[
     def say(s: str) -> None:
         out_lines.append(s)
         if not quiet:
-            print(s, flush=True)
+            try:
+                print(s, flush=True)
+            except BrokenPipeError:
+                pass
 
     try:
         program = Program.from_dir(repo)
